@@ -3,6 +3,15 @@
 #ifndef H_CFG
 #error "H_CFG must name the configuration traits type"
 #endif
+namespace H {
+template <class F> std::string flag_bits(F& f) {
+  std::string s;
+#define X(N) s += H_CFG::template flag_or<Flag<N>>(f) ? '1' : '0';
+  H_FLAGS(X)
+#undef X
+  return s;
+}
+}
 #ifdef H_SERIALIZE
 #include <boost/archive/text_oarchive.hpp>
 #include <boost/archive/text_iarchive.hpp>
